@@ -336,3 +336,119 @@ func ruleGoRecover(w *World, r *Report, rule string, sites []goSite, sinkCall fu
 		r.OK(rule, construct, s.in.Pos(), "defer+recover dominates all calls; recovered value "+how)
 	}
 }
+
+// ERR-NOT-DROPPED: after a call that yields an error, a `return …, nil` (constant nil in the function's error result)
+// is reached only where that error was tested nil — a success return on a path that never looked at the error, or that
+// sits on the error's non-nil side, swallows the failure. Reports the offending returns; calls whose error is never
+// extracted at all are reported with a nil Return.
+type droppedErr struct {
+	call ssa.CallInstruction
+	ret  *ssa.Return
+	why  string
+}
+
+func errDroppedReturns(fn *ssa.Function) []droppedErr {
+	var out []droppedErr
+	res := fn.Signature.Results()
+	if res.Len() == 0 || !types.Identical(res.At(res.Len()-1).Type(), types.Universe.Lookup("error").Type()) {
+		return nil
+	}
+	ei := res.Len() - 1
+	instrs(fn, func(in ssa.Instruction) {
+		c, ok := in.(*ssa.Call)
+		if !ok {
+			return
+		}
+		var errv ssa.Value
+		switch t := c.Type().(type) {
+		case *types.Tuple:
+			if t.Len() == 0 || !types.Identical(t.At(t.Len()-1).Type(), types.Universe.Lookup("error").Type()) {
+				return
+			}
+			for _, ref := range *c.Referrers() {
+				if ex, ok := ref.(*ssa.Extract); ok && ex.Index == t.Len()-1 {
+					errv = ex
+				}
+			}
+		default:
+			if !types.Identical(c.Type(), types.Universe.Lookup("error").Type()) {
+				return
+			}
+			errv = c
+		}
+		if errv == nil {
+			return
+		}
+		// the error and the phis it flows into (`if … { x, err = a() } else { x, err = b() }; if err != nil`)
+		errs := map[ssa.Value]bool{errv: true}
+		for changed := true; changed; {
+			changed = false
+			instrs(fn, func(x ssa.Instruction) {
+				if phi, ok := x.(*ssa.Phi); ok && !errs[phi] {
+					for _, e := range phi.Edges {
+						if errs[e] {
+							errs[phi] = true
+							changed = true
+						}
+					}
+				}
+			})
+		}
+		isErr := func(v ssa.Value) bool { return errs[v] }
+		// a sentinel test of the error (err == io.EOF, errors.Is(err, X)) on its true side: a deliberate translation
+		sentinelSide := func(g guard) bool {
+			if !g.pol {
+				return false
+			}
+			if op, a, b, ok := asCmp(g.cond); ok && op == token.EQL {
+				return (errs[a] && !isNilConst(b)) || (errs[b] && !isNilConst(a))
+			}
+			if c, ok := g.cond.(*ssa.Call); ok {
+				if n := calleeFullName(c); (n == "errors.Is" || n == "errors.As") && len(c.Call.Args) > 0 && errs[c.Call.Args[0]] {
+					return true
+				}
+			}
+			return false
+		}
+		instrs(fn, func(in2 ssa.Instruction) {
+			ret, ok := in2.(*ssa.Return)
+			if !ok || len(ret.Results) <= ei || !isNilConst(ret.Results[ei]) {
+				return
+			}
+			if reach, _ := (pathQuery{fn: fn, from: c, goal: func(x ssa.Instruction) bool { return x == ret }}).exists(); !reach {
+				return
+			}
+			// dominated by "err == nil"?
+			nilSide, nonNilSide := false, false
+			for _, g := range guardsOf(ret.Block()) {
+				if sentinelSide(g) {
+					return
+				}
+				if guardNonNil(g, isErr) {
+					nonNilSide = true
+				}
+				if guardNonNil(guard{g.cond, !g.pol, g.at}, isErr) {
+					nilSide = true
+				}
+			}
+			switch {
+			case nonNilSide:
+				out = append(out, droppedErr{c, ret, "returns a nil error on the side where the callee's error is non-nil"})
+			case !nilSide:
+				// a path from the call to this return that does not pass a test of the error
+				tested := func(x ssa.Instruction) bool {
+					iff, ok := x.(*ssa.If)
+					if !ok {
+						return false
+					}
+					_, a, b, ok := asCmp(iff.Cond)
+					return ok && (errs[a] || errs[b])
+				}
+				if reach, wit := (pathQuery{fn: fn, from: c, goal: func(x ssa.Instruction) bool { return x == ret }, avoid: tested}).exists(); reach {
+					out = append(out, droppedErr{c, ret, "returns a nil error on a path that never tested the callee's error: " + wit})
+				}
+			}
+		})
+	})
+	return out
+}
